@@ -51,7 +51,14 @@ class C13Irrigation(Monitor):
 
     def after(self, name, bound, ret):
         if name == "irrigation" and self.call is not None:
-            self.call["out"] = ret
+            # the white-box part only understands the interface (depletion, TAW, cumulative, applied); anything else -> table-only oracle
+            try:
+                ok = len(ret) == 4 and all(np.isscalar(x) or np.ndim(x) == 0 for x in ret)
+            except TypeError:
+                ok = False
+            self.call["out"] = ret if ok else None
+            if not ok:
+                self.call["iface"] = "irrigation() no longer returns (depletion, TAW, cumulative, applied)"
         return None
 
     # ---- monitor ------------------------------------------------------------------------------
@@ -190,7 +197,8 @@ class C13Irrigation(Monitor):
         elif m == 1:
             if call and call.get("in") is not None and call.get("out") is not None:
                 D, taw = float(call["out"][0]), float(call["out"][1])
-                g = int(call["in"].get("NewCond_GrowthStage", 0))
+                g_raw = call["in"].get("NewCond_GrowthStage")
+                g = int(g_raw) if g_raw is not None else stage_in_force   # argument renamed: fall back to the reference stage
                 if dap == 1:
                     g = 1
                 # the growth stage is re-derived from the crop calendar and the delay of germination counted by the monitor
